@@ -259,4 +259,9 @@ example :
 /-- a malformed element (null `op`) meets the hypothesis of `patch_malformed_safe` -/
 example : Malformed (fun _ => []) (.obj [(kOp, .null), (kPath, .str [])]) := Malformed.opNull _ rfl
 
+
+/-- every source fact this property's model consumes was located in the current source by tools/extract (a fact that is not
+found is emitted with a placeholder value; this obligation then fails and the check uses the reference model) -/
+theorem source_facts_located_c13 : JsonC.Generated.factsFound_patch = true ∧ JsonC.Generated.factsFound_ptr = true := by decide
+
 end JsonC.Patch
